@@ -59,7 +59,6 @@ def one(ctx, i):
         ctx.count('too_short')
         return
     ctx.count('simulations')
-    ctx.count('evaluations')
     if mixed:
         ctx.count('mixed_unit_histories')
     subsets = all_small_subsets()
@@ -91,6 +90,7 @@ def one(ctx, i):
         else:
             tq = GEN.Q('Time', SI.from_si('Time', ts, tu), tu)
         ctx.count('targets_' + kind)
+        ctx.count('evaluations')
         ok = CE.check_snapshot(ctx, b, tr, tq, sub, units, case)
         if not ok:
             relabel(ctx)
